@@ -1,0 +1,12 @@
+//go:build verif
+
+// Contracts for the observer registries (read as text by /verif's govc; comment-only).
+
+package observe
+
+//@ # lock discipline (C13 over schedules: subscribing before and during traffic): the set of handlers
+//@ # is read and changed only with the registry's mutex held
+//@ guarded_by base.handlers mu
+//@ guarded_by async.handlers mu
+//@ unshared New the registry is built before it is published
+//@ unshared NewAsync the registry is built before it is published
